@@ -1973,9 +1973,10 @@ class t2data(object):
         differently.
         """
         if MP: self.filename = 'INFILE'
+        # (parameter conversion depends on the simulator name)
+        self.convert_AUTOUGH2_parameters_to_TOUGH2(warn, MP)
         self.simulator = ''
         self.delete_section('SIMUL')
-        self.convert_AUTOUGH2_parameters_to_TOUGH2(warn, MP)
         self.convert_AUTOUGH2_generators_to_TOUGH2(warn)
         self.convert_short_to_history()
 
